@@ -29,3 +29,140 @@ pub fn udp_send(buffer: &[u8], locator: &Locator) -> bool {
   }
   true
 }
+
+// ---------------------------------------------------------------------------
+// engine E2: whole participants under the baton scheduler
+// ---------------------------------------------------------------------------
+
+/// Shadow of `std::time::Instant` inside functions that read the monotonic
+/// clock: `Instant::now()` is a fixed real instant plus simulated time, so all
+/// differences are simulated durations (the value type stays std's `Instant`).
+pub struct Instant;
+
+static BASE_INSTANT: std::sync::OnceLock<std::time::Instant> = std::sync::OnceLock::new();
+
+impl Instant {
+  pub fn now() -> std::time::Instant {
+    if simcore::is_active() {
+      let base = *BASE_INSTANT.get_or_init(std::time::Instant::now);
+      base + std::time::Duration::from_nanos(simcore::now_ns())
+    } else {
+      std::time::Instant::now()
+    }
+  }
+}
+
+/// Shadow of `chrono::Utc` (`Utc::now()` on the simulated wall clock).
+pub struct Utc;
+impl Utc {
+  pub fn now() -> chrono::DateTime<chrono::Utc> {
+    if simcore::is_active() {
+      let ns = simcore::unix_ns();
+      chrono::DateTime::<chrono::Utc>::from_timestamp(
+        (ns / 1_000_000_000) as i64,
+        (ns % 1_000_000_000) as u32,
+      )
+      .unwrap()
+    } else {
+      chrono::Utc::now()
+    }
+  }
+}
+
+/// Shadow of `std::thread` inside the two functions that spawn the background
+/// threads and inside the busy-wait of `try_send_timeout`.
+pub mod thread {
+  pub use std::thread::JoinHandle;
+
+  pub struct Builder {
+    name: Option<String>,
+  }
+
+  impl Builder {
+    #[allow(clippy::new_without_default)]
+    pub fn new() -> Self {
+      Builder { name: None }
+    }
+    pub fn name(mut self, name: String) -> Self {
+      self.name = Some(name);
+      self
+    }
+    /// a real OS thread, registered with the simulator and parked at entry:
+    /// it only ever runs while it holds the baton
+    pub fn spawn<F, T>(self, f: F) -> std::io::Result<JoinHandle<T>>
+    where
+      F: FnOnce() -> T + Send + 'static,
+      T: Send + 'static,
+    {
+      if simcore::is_active() {
+        simcore::spawn(self.name, f)
+      } else {
+        let mut b = std::thread::Builder::new();
+        if let Some(n) = self.name {
+          b = b.name(n);
+        }
+        b.spawn(f)
+      }
+    }
+  }
+
+  pub fn sleep(d: std::time::Duration) {
+    if simcore::is_active() {
+      simcore::sleep_ns(d.as_nanos().min(u64::MAX as u128) as u64);
+    } else {
+      std::thread::sleep(d);
+    }
+  }
+}
+
+/// Before a native blocking call of the application thread (thread join,
+/// "discovery started" rendezvous): run the world until nothing is enabled at
+/// the current simulated instant, so the native call returns at once.
+pub fn drive_until_quiescent() {
+  if simcore::is_active() {
+    simcore::drive_until_quiescent();
+  }
+}
+
+/// Before a native `JoinHandle::join` of the application thread.
+pub fn before_join<T>(h: &std::thread::JoinHandle<T>) {
+  if simcore::is_active() {
+    simcore::drive_until_thread_exit(h.thread().id());
+  }
+}
+
+/// `UDPListener::new_listening_socket`: a simulated socket on a logical port.
+pub fn sim_listening_socket(
+  port: u16,
+  reuse_addr: bool,
+) -> Option<std::io::Result<mio_06::net::UdpSocket>> {
+  if simcore::is_active() {
+    Some(mio_06::net::UdpSocket::sim_bind(port, reuse_addr))
+  } else {
+    None
+  }
+}
+
+/// one fixed fake interface per simulated host
+pub fn sim_unicast_locators(port: u16) -> Option<Vec<Locator>> {
+  if simcore::is_active() {
+    let ip = simcore::current_node_ip();
+    Some(vec![Locator::from(SocketAddr::new(ip.into(), port))])
+  } else {
+    None
+  }
+}
+
+pub fn sim_multicast_if_addrs() -> Option<Vec<std::net::IpAddr>> {
+  if simcore::is_active() {
+    Some(vec![simcore::current_node_ip().into()])
+  } else {
+    None
+  }
+}
+
+pub fn yield_point(site: &'static str) {
+  if simcore::is_active() {
+    simcore::yield_point(site);
+  }
+}
